@@ -27,7 +27,8 @@ CLAIM = {
             "before delegating (holder side for next_holder_commit_num <= n), which refuses commit_num > 0 with "
             "funding_depth < min_funding_depth or closing_depth > 0, and every other method delegates to `inner` with "
             "its own arguments in order; (R5.4) the policy filter defaults to Error and policy_error returns Err "
-            "unless a rule says Warn. Does not decide arithmetic behaviour at u64 extremes beyond the presence of "
+            "unless a rule says Warn; (R5.5) no quantity compared with a SimplePolicy bound in policy/ was narrowed by a "
+            "truncating integer cast on the way (callee return values included). Does not decide arithmetic behaviour at u64 extremes beyond the presence of "
             "checked operations.",
     "note": "non-permissive policy; estimate_feerate_per_kw / expected_commitment_tx_weight / htlc_*_tx_weight trusted "
             "by name; one live object per typed path",
@@ -50,6 +51,7 @@ def run(ctx):
     r52(ctx)
     r53(ctx)
     r54(ctx)
+    r55(ctx)
 
 
 def r51(ctx):
@@ -366,3 +368,18 @@ def r54(ctx):
     calls = [c.callee.name for bi, c in db.calls() if c.callee]
     ctx.ob("R5.4", all("Vec" in n and "new" in n or "vec" in n.lower() for n in calls) and "FilterRule" not in txt,
            f"{db.name}/empty", f"PolicyFilter::default is not empty: calls {calls}", where=f"{db.file}:{db.line}", sample=calls)
+
+
+def r55(ctx):
+    ctx.rule("R5.5", "policy bounds are compared on untruncated values: no value-narrowing integer cast (x as u32 with x: u64) "
+                     "in the derivation of a quantity compared with a SimplePolicy field (callee return values included)")
+    p = ctx.prog
+    n = 0
+    for b in sorted(p.bodies.values(), key=lambda x: x.name):
+        if b.d.krate != "lightning_signer" or not b.file or "/policy/" not in "/" + b.file:
+            continue
+        on = R.owner_name(p, b)
+        if R.is_test_util(on) or "validate_beneficial_value" in on or "validate_onchain_tx" in on:
+            continue    # on-chain spends: C08 R8.5
+        n += R.bound_comparisons_untruncated(ctx, "R5.5", b, lambda s: "SimplePolicy." in s or "policy." in s, b.name)
+    ctx.floor("R5.5", "integer comparisons with a policy bound", n, 10)
